@@ -21,7 +21,7 @@ import (
 
 func TestMain(m *testing.M) { harness.Main(m) }
 
-const rule = "C02: table items(id, ca, cb int; cs text; cn int NULL; ct text NULL) with 0-12 rows over tiny domains; a chain of 1-5 Where/Not/Or calls (first effective call not Or) over units = condition tree (atoms = <> < > IN LIKE IS [NOT] NULL, AND/OR/NOT depth <= 3) x rendering (raw ? string with random keyword case / whitespace incl. tab and new line / redundant and adjacent parentheses, literal string, @name template, map, struct or pointer incl. zero fields, clause.Expression tree, grouped db.Where(db.Where(A).Or(B)), primary-key slice), optional inline finisher condition and primary key of the model value; finishers Find / Find into keyed struct / Count / Update(marker) / Delete, each on a fresh table; the ids read / counted / updated / deleted must equal the ids on which the three-valued reference predicate is TRUE. non-trivial = at least two effective units, one of them with an inner AND/OR (or several members) or reached through Not/Or, and the selected set is neither empty nor the whole table; distinct = rows + chain + finisher"
+const rule = "C02: table items(id, ca, cb int; cs text; cn int NULL; ct text NULL; cor int; band text - two column names containing the letters of OR / AND) with 0-12 rows over tiny domains (text values include keyword-bearing data such as or / sand / b and c, compared values also x OR y); a chain of 1-5 Where/Not/Or calls (first effective call not Or) over units = condition tree (atoms = <> < > IN LIKE IS [NOT] NULL, AND/OR/NOT depth <= 3) x rendering (raw ? string with random keyword case / whitespace incl. tab and new line / redundant and adjacent parentheses, literal string, @name template, map, struct or pointer incl. zero fields, clause.Expression tree, grouped db.Where(db.Where(A).Or(B)), primary-key slice), optional inline finisher condition and primary key of the model value; finishers Find / Find into keyed struct / Count / Update(marker) / Delete, each on a fresh table; the ids read / counted / updated / deleted must equal the ids on which the three-valued reference predicate is TRUE. non-trivial = at least two effective units, one of them with an inner AND/OR (or several members) or reached through Not/Or, and the selected set is neither empty nor the whole table; distinct = rows + chain + finisher"
 
 var spec = cond.TableSpec{Name: "items"}
 
